@@ -21,9 +21,14 @@
    proves (1)-(3) (c13i_ok, Proofs/C13Id.v) from the guard, the syntactic screen and
    well-formed arguments (op_wf, Proofs/C02History.v: no repeated key in any sub-document of
    the filters and update documents: Python dicts; the hypothesis is used by the proof, no
-   counterexample without it is known).  (4) is NOT proved: it needs the matcher's result on
-   the document built from the seed (expand_dots / discard_ops / the update operators /
-   normalisation) for every equality field of the filter.
+   counterexample without it is known).  C13_history_flat_partial proves ALL of c13_ok, (1)-(4),
+   under one more screen, c13_flat (Proofs/C13Match.v): the equality-only filters of
+   update_one/update_many upserts have dot-free keys.  What is still missing for the full
+   target is (4) for equality-only filters with dotted keys ("a.b": 1): the value that
+   expand_dots / discard_ops / the chain of update operators / normalisation leave at a
+   nested path, and the matcher's candidates along that path (for a dot-free key these are an
+   assoc lookup; the matcher side - a literal or {$eq: v} against the value itself - is
+   proved for any document, Proofs/C13Match.v matches_eq_fields).  No counterexample is known.
    Without the screen (3) and (4) are false on the model (Refuted/C13.v part B); inside the
    screen two further classes were found and are now bits of c13_reasons (part C):
      32 = the update addresses a path strictly below _id ({$set: {"_id.x": 1}}): (3) fails;
@@ -35,7 +40,7 @@
 From Coq Require Import ZArith List String Bool Ascii.
 From Verif Require Import Value PyEq BsonOrder Path Filter Update Project Coll HistCheck HistProps
   HistGuards HistPropCheck.
-From Verif.Proofs Require Import C13Proofs C13Id.
+From Verif.Proofs Require Import C13Proofs C13Id C13Match C13Examples.
 From Verif.Proofs Require C02History.
 Import ListNotations.
 Open Scope Z_scope.
@@ -86,3 +91,57 @@ Theorem C13_upsert_id : forall pre5 c f u multi c' v,
   exists id, v = update_result 1 0 (Some id) /\ id_src_ok f id.
 Proof. exact update_upsert_id. Qed.
 Print Assumptions C13_upsert_id.
+
+(* all four clauses: the guard, the syntactic screen, well-formed arguments, and dot-free keys
+   in the equality-only filters of update upserts.
+   The full statement (not proved) is the same without the premise c13_flat ops = true. *)
+Theorem C13_history_flat_partial : forall (pre5 : bool) (ops : list op),
+  Forall C02History.op_wf ops ->
+  c13_reasons ops (model_obs pre5 empty_coll ops) = 0 ->
+  c13_undecided ops = false ->
+  c13_flat ops = true ->
+  c13_ok ops (model_obs pre5 empty_coll ops) = true.
+Proof. exact c13_history_flat. Qed.
+Print Assumptions C13_history_flat_partial.
+
+(* the key step of clause (4): in a state without TTL index, an operator-update upsert that
+   matches nothing and succeeds stores (as the last document) one that its own dot-free
+   equality-only filter matches, provided the update writes no path overlapping the filter's *)
+Theorem C13_upsert_matches_filter : forall pre5 c ffs u multi c' v kl d,
+  noTTL c -> wf_value (VDoc ffs) = true -> wf_value u = true ->
+  c13_writes_id u = false -> c13_odd_filter (VDoc ffs) = false ->
+  c13_id_subfield u = false -> c13_null_id_filter (VDoc ffs) = false ->
+  first_key_dollar u = Some true ->
+  scan (patch (VDoc ffs)) (docs c) = Ok [] ->
+  update pre5 c (VDoc ffs) u multi true = (c', Ok v) ->
+  equality_only (VDoc ffs) = true -> c13_flat_filter (VDoc ffs) = true ->
+  existsb (fun p => existsb (fun q => paths_overlap p (fst q)) ffs) (update_paths u) = false ->
+  last (docs c') (VNull, VNull) = (kl, d) ->
+  match filter_applies (patch (VDoc ffs)) d with Ok b => b | Err _ => true end = true.
+Proof. exact upsert_last_clause. Qed.
+Print Assumptions C13_upsert_matches_filter.
+
+(* the matcher side of clause (4), for any document: a filter made of dot-free equality
+   fields is matched (or raises) by a document holding each field's literal *)
+Theorem C13_equality_fields_match : forall dfs sfs,
+  (forall k x, In (k, x) sfs ->
+     starts_dollar k = false /\ k <> "" /\ split_dots k = [k] /\ eq_leaf x = true /\
+     wf_value (lit x) = true /\ assoc k dfs = Some (lit x)) ->
+  ok_or_err (matches (parse_filter (VDoc sfs)) (VDoc dfs)).
+Proof. exact matches_eq_fields. Qed.
+Print Assumptions C13_equality_fields_match.
+
+(* the premises of C13_history_flat_partial hold on a non-trivial history (c13_ex_ops3,
+   Proofs/C13Examples.v): ten operations, six upserts, equality-only filters with literals,
+   {$eq: v}, null and array literals *)
+Example C13_flat_premises_satisfiable :
+  Forall C02History.op_wf c13_ex_ops3 /\
+  c13_reasons c13_ex_ops3 (model_obs false empty_coll c13_ex_ops3) = 0 /\
+  c13_undecided c13_ex_ops3 = false /\
+  c13_flat c13_ex_ops3 = true /\
+  modelled false empty_coll c13_ex_ops3 = true /\
+  c13_ok c13_ex_ops3 (model_obs false empty_coll c13_ex_ops3) = true /\
+  map (fun ob => List.length (snd (fst ob))) (model_obs false empty_coll c13_ex_ops3)
+  = [1; 1; 2; 3; 4; 4; 5; 6; 6; 6]%nat.
+Proof. exact c13_ex_history3. Qed.
+Print Assumptions C13_flat_premises_satisfiable.
